@@ -68,7 +68,7 @@ func main() {
 	t.SourceFiles = w.hashes
 
 	if *code != "" {
-		for _, p := range []string{keeperP, typesP} {
+		for _, p := range []string{keeperP, typesP, moduleP} {
 			if err := w.load(w.mustPkg(p)); err != nil {
 				fatalf("%v", err)
 			}
